@@ -28,6 +28,7 @@ const (
 	kZ
 	kB
 	kLit // integer literal: exact in either context
+	kN   // a pointer / error value, represented by the Boolean "it is nil"
 	kBad
 )
 
@@ -35,6 +36,12 @@ type ar struct {
 	atoms   map[string][2]string // normalised Go source -> (lean, kind letter)
 	unknown int
 	fn      string // function being translated (decides the shape of return values)
+	// callAtoms: source text of a call on the right of a multi-valued assignment -> per left-hand side (lean, kind letter;
+	// "" = the value is not needed, e.g. a string for a log line)
+	callAtoms map[string][][2]string
+	// loop-body mode: the body of `for _, x := range xs` translated to "is x appended to appendTo in this iteration"
+	appendTo string
+	inertOK  map[ast.Stmt]bool
 }
 
 func (a *ar) unk(what string) (string, kind) {
@@ -54,6 +61,8 @@ func kindOf(s string) kind {
 		return kZ
 	case "B":
 		return kB
+	case "N":
+		return kN
 	}
 	return kBad
 }
@@ -218,6 +227,12 @@ func (a *ar) expr(e ast.Expr, en env) (string, kind) {
 				}
 				return "(!" + l + ")", kB
 			}
+			if id, ok := v.Y.(*ast.Ident); ok && id.Name == "nil" && kl == kN {
+				if v.Op == token.EQL {
+					return l, kB
+				}
+				return "(!" + l + ")", kB
+			}
 			if kl == kF && kr == kF {
 				return "(" + neg + "decide (" + l + " = " + r + "))", kB
 			}
@@ -262,7 +277,7 @@ func leanType(k kind) string {
 		return "Rat"
 	case kF:
 		return "Gen.F"
-	case kB:
+	case kB, kN:
 		return "Bool"
 	}
 	return "Int"
@@ -305,16 +320,20 @@ func (a *ar) ret(r *ast.ReturnStmt, en env) string {
 				return a.toI(s, k)
 			}
 		}
-	case "bandSwitch":
+	case "bandSwitch", "taintClamp":
 		if len(r.Results) == 2 {
 			s, k := a.expr(r.Results[0], en)
 			e := "false"
 			if !isNil(r.Results[1]) {
-				es, ek := a.expr(r.Results[1], en)
-				if ek != kB {
-					es, _ = a.unk("returned error: " + srcOf(r.Results[1]))
+				if a.fn == "taintClamp" {
+					e = "true"
+				} else {
+					es, ek := a.expr(r.Results[1], en)
+					if ek != kB {
+						es, _ = a.unk("returned error: " + srcOf(r.Results[1]))
+					}
+					e = es
 				}
-				e = es
 			}
 			if k == kI || k == kLit {
 				return "(" + a.toI(s, k) + ", " + e + ")"
@@ -327,11 +346,21 @@ func (a *ar) ret(r *ast.ReturnStmt, en env) string {
 
 func (a *ar) block(ss []ast.Stmt, en env, ind string) string {
 	if len(ss) == 0 {
+		if a.appendTo != "" {
+			return ind + "appended_"
+		}
 		u, _ := a.unk("function falls off its end")
 		return ind + u
 	}
 	s, rest := ss[0], ss[1:]
+	if a.inertOK[s] {
+		return a.block(rest, en, ind)
+	}
 	switch v := s.(type) {
+	case *ast.BranchStmt:
+		if a.appendTo != "" && v.Tok == token.CONTINUE && v.Label == nil {
+			return ind + "appended_"
+		}
 	case *ast.ReturnStmt:
 		return ind + a.ret(v, en)
 	case *ast.DeclStmt:
@@ -341,6 +370,27 @@ func (a *ar) block(ss []ast.Stmt, en env, ind string) string {
 			return a.block(rest, en, ind)
 		}
 	case *ast.AssignStmt:
+		// xs = append(xs, x) in loop-body mode
+		if a.appendTo != "" && len(v.Lhs) == 1 && len(v.Rhs) == 1 && srcOf(v.Lhs[0]) == a.appendTo {
+			if c, ok := v.Rhs[0].(*ast.CallExpr); ok && srcOf(c.Fun) == "append" && len(c.Args) == 2 && srcOf(c.Args[0]) == a.appendTo {
+				return ind + "let appended_ : Bool := true\n" + a.block(rest, en, ind)
+			}
+		}
+		if len(v.Rhs) == 1 {
+			if at, ok := a.callAtoms[srcOf(v.Rhs[0])]; ok && len(at) == len(v.Lhs) {
+				en2 := en.copy()
+				out := ""
+				for i, l := range v.Lhs {
+					if at[i][0] == "" {
+						continue
+					}
+					k := kindOf(at[i][1])
+					out += fmt.Sprintf("%slet %s : %s := %s\n", ind, srcOf(l), leanType(k), at[i][0])
+					en2[srcOf(l)] = k
+				}
+				return out + a.block(rest, en2, ind)
+			}
+		}
 		// nodesDelta, err = calcScaleUpDelta(untaintedNodes, cpuPercent, memPercent, …): the pair `up` handed in
 		if len(v.Lhs) == 2 && len(v.Rhs) == 1 {
 			if c, ok := v.Rhs[0].(*ast.CallExpr); ok && srcOf(c.Fun) == "calcScaleUpDelta" && len(c.Args) == 6 &&
